@@ -561,6 +561,11 @@ for _perm in itertools.permutations(range(3)):
     TAGLISTS["".join(map(str, _perm))] = [XPOOL[i] for i in _perm]
 
 
+# keys that are proper substrings of the selected key / of the key that must miss: selecting compares whole keys
+TAGLISTS["sub_hit"] = [("k", "v4"), XT2]
+TAGLISTS["sub_miss"] = [("z", "v5"), XT2]
+
+
 def xreal(t):
     if t[0] == "K2":
         # the term of the k1 tags is NAMED like the other tags' key: selecting 'by key' compares keys (labels), never names
@@ -781,6 +786,14 @@ def export_pool(p):
         for f0 in Fq:
             for f1 in Fq:
                 pool.append(("MultiLineString", [[[a, f0], [b, f1]], [[a, f1], [b, f0]]]))
+    # parts of unequal vertex counts (a coordinate list that is not a rectangular array)
+    for a, b in strict_pairs(T):
+        m = (a + b) / 2
+        lo, hi = Fq[0], Fq[-1]
+        q = (lo + hi) / 2
+        pool.append(("MultiLineString", [[[a, lo], [b, hi]], [[a, hi], [m, q], [b, lo]]]))
+        pool.append(("Polygon", [[[a, lo], [b, lo], [b, hi], [a, hi]], [[a + (m - a) / 2, lo + (q - lo) / 2], [m, lo + (q - lo) / 2], [m, q]]]))
+        pool.append(("MultiPolygon", [[[[a, lo], [m, lo], [a, hi]]], [[[m, lo], [b, lo], [b, hi], [m, hi]]]]))
     # line strings whose time (frequency) extent is reached at an INTERIOR vertex: only the end points of a line are ordered in
     # time, so the exported bounds must come from all vertices, not from the first and the last one
     for a, b in strict_pairs(T):
